@@ -9,28 +9,55 @@ META = dict(
          "window of s++s on the exact accepted domain, pairing_mismatches coordinates commute with both, Join keeps one score per symbol; an ownership "
          "model (objects owning three buffers — sequence, qualities, features — in a heap, pool with arbitrary hand-out, recycle, in-place writes, mate "
          "links) is proved to simulate value semantics for every history and every hand-out order, and derived objects are proved to share no mate. "
+         "Round 3: the in-place edits Clear / ClearQualities / WriteQualities / WriteByteQualities / Grow are operations of both models (all history "
+         "theorems quantify over them), the reverse complement of an object extended in place is proved to be the reverse complement of the extension "
+         "followed by the old one (what a stale cache would miss), Composition is proved to count a/c/g/t/others and to exchange a<->t, c<->g under "
+         "reverse complement, QualitiesString to be printable, reversible and exact up to 93. "
          "The complement tables are dumped from the current build on every run and the involution / three-tables-agree / model-comp-is-code theorems "
          "are re-proved by the kernel over the regenerated file. Tie to the code on every run: operation histories (every constructor: NewBioSequence, "
-         "SetSequence, Write/WriteString/WriteByte; copy/rc/sub/join/set*/poke*/pair/unpair/recycle/pool churn with poisoning) run on real BioSequence "
-         "objects with the pool-trace hook on; every live object (symbols, qualities, mismatches, features, mate) is observed after every step and checked "
-         "by a Python value-semantics oracle; the same histories are evaluated by the value model with vm_compute; and the REAL Get/Recycle events and "
-         "buffer identities of every step are replayed on the ownership model (Trace.trun, vm_compute): every buffer the real pool hands out must be free "
-         "in the model, every recycled buffer must be unowned afterwards, the buffers of the registers must stay in bijection with the model's — an "
-         "accepted trace is proved to be a run of the ownership model, hence of the value semantics (C07_trace_accepted_is_value_run).",
+         "NewBioSequenceWithQualities, SetSequence, Write/WriteString/WriteByte, Grow+Write; copy/rc (method and ReverseComplementWorker)/sub/join/set*/"
+         "poke*/clear/append with scores/grow/pair/unpair/recycle/pool churn with poisoning; the slices handed to the code are overwritten afterwards) run on "
+         "real BioSequence objects with the pool-trace hook on; every live object (symbols, qualities, mismatches stored as map[string]int or as a header "
+         "parser stores them, features, mate, identifier, definition, source, Len/HasSequence, and at the end MD5String, Composition, QualitiesString) is "
+         "observed after every step and checked by a Python value-semantics oracle; the same histories are evaluated by the value model with vm_compute; "
+         "the REAL Get/Recycle events and buffer identities of every step are replayed on the ownership model (Trace.trun, vm_compute): every buffer the "
+         "real pool hands out must be free in the model, every recycled buffer must be unowned afterwards, the buffers of the registers must stay in "
+         "bijection with the model's — an accepted trace is proved to be a run of the ownership model, hence of the value semantics "
+         "(C07_trace_accepted_is_value_run); Composition / QualitiesString of the final objects are compared with their model by vm_compute. Command level: "
+         "obicomplement (file, stdin pipe, FASTA/FASTQ, --no-order --max-cpu 4, --force-one-cpu, gzip output file) on records with IUPAC symbols, "
+         "qualities, pairing_mismatches and definitions in JSON headers is judged record by record by the same oracle (twice = identity) and compared "
+         "with the in-process ReverseComplementWorker(true) on the same records.",
     note="Trusted: Coq kernel + vm_compute, harness, generators, the Python oracle, the verif hooks (pool_verif.go trace + poison, verif2_c07.go raw "
          "buffers). sync.Pool itself is not modelled: the ownership theorem covers every hand-out order and the real order of every run is validated "
          "against the model; only safety of the events is enforced (not the exact number of Gets of an operation), under GOMAXPROCS=1. In-place edits of "
          "the stored mismatch map are in the value model only; the annotation pool events are counted, not modelled. Keys of pairing_mismatches are "
          "compared case-insensitively by the oracle (rc lower-cases their letters). Guards stated in the theorems: circular windows need |s| > 0, "
-         "from >= 0, to >= 0; qualities have the length of the sequence (the generators keep it: SetSequence/SetQualities of the same length, Write only "
-         "on objects without qualities); mismatch keys have the form (x:dd)->(y:dd). Upper-case symbols (reachable through the Write family only) are "
-         "outside the involution domain (stated). Recorded outside the statement: a recycled paired object leaves its mate with a stale link. Histories "
-         "with sequences longer than 300 go through the oracle only, except the reuse histories (lengths up to 1400, no reverse complement above 400) "
-         "which also go through the value model and the trace validator.")
+         "from >= 0, to >= 0 (Subsequence(.., circular) of an EMPTY sequence panics, integer divide by zero: theorem C07_circular_guard_empty, corpus "
+         "circular-empty; a linear window of an empty sequence is an error, corpus empty-linear; the property quantifies over lengths >= 1); qualities "
+         "have the length of the sequence (the generators keep it: SetSequence/SetQualities of the same length, Clear with ClearQualities, Write followed by "
+         "WriteQualities of as many scores on objects with scores or empty, Write alone otherwise); mismatch keys have the form (x:dd)->(y:dd). Upper-case "
+         "symbols (reachable through the Write family only) are outside the involution domain (stated). Identifier, definition, source, MD5, SameAs, "
+         "Len/HasSequence are judged by the direct oracle only (a copy / reverse complement / join keeps all three, a window keeps the definition, is "
+         "named <id>_sub[first..last] — a window stitched over the origin is named after its first part only, both forms accepted — and has no source); "
+         "Composition and QualitiesString also by the model, on objects over the alphabet of the property (Composition files an upper-case A under its "
+         "own key: outside the alphabet, not judged). Outside the property, recorded: a recycled paired object leaves its mate with a stale link; Copy does "
+         "not carry the mate (by design: C07_derived_objects_share_no_mate) and Subsequence does not carry the source. Not exercised: LogBioSeqStatus "
+         "(debug log of three counters), the branch of Copy that copies the `revcomp` field (no code sets that field: dead since the back-link repair; "
+         "histories with several ReverseComplement(false) of one object and a change in between are generated so that a revived cache with incomplete "
+         "invalidation shows), the conversion-error branch of Definition (unreachable: obiutils.InterfaceToString never returns an error), the two log.Panicln of "
+         "RecycleSlice / GetSlice (unreachable: the tests two lines above exclude them), pkg/obikmer/debruijn.go apart from its table revcompnuc (the De "
+         "Bruijn graph is the subject of C19; C07 is anchored there for the complement table only, which is dumped and proved equal to the two others). "
+         "Grow on an object whose sequence is nil takes a pooled slice: exercised through the constructor Grow+Write, skipped by the harness on other "
+         "objects. Histories with sequences longer than 300 go through the oracle only, except the reuse histories (lengths up to 1400, no reverse "
+         "complement above 400) which also go through the value model and the trace validator. Input classes the generator does not produce: symbols "
+         "outside the IUPAC alphabet of either case inside histories (nucComplement is dumped and modelled for all 256 bytes), qualities whose number "
+         "differs from the number of symbols across a reverse complement, concurrent use of one object (C05).")
 TRUSTED = ["sync.Pool hand-out order is not modelled: the object model proves value semantics for every hand-out order; the real Get/Recycle events "
            "(verif hook pkg/obiseq/pool_verif.go, buffers poisoned with 0xDB on recycle) are validated against the model by C07.Trace.trun on every run",
            "buffer identities are start addresses of backing arrays reported by the harness (pkg/obiseq/verif2_c07.go), kept alive for the duration of a case",
-           "deepcopy of annotation values (obiutils.MustFillMap) is taken as a faithful copy"]
+           "deepcopy of annotation values (obiutils.MustFillMap) is taken as a faithful copy",
+           "MD5 (crypto/md5) and the FASTA/FASTQ/JSON-header readers and writers behind obicomplement are taken as given (C01, C02, C04 judge them); "
+           "obioptions.OutputQualityShift() is at its default (33)"]
 
 IUPAC = "acgtrymkswbdhvn.-[]"
 SPEC_COMP = dict(zip("acgtrymkswbdhvn.-[]", "tgcayrkmswvhdbn.-]["))
@@ -123,13 +150,16 @@ def spec_revkey(k):
 
 
 class Val:
-    def __init__(self, seq, qual, mm, feat="", mate=None):
+    def __init__(self, seq, qual, mm, feat="", mate=None, ids=("s",), dfn=None, srcs=("",)):
         self.seq, self.qual, self.mm, self.feat, self.mate = seq, qual, mm, feat, mate     # mate: object index
+        # round 3: identifier, definition (None: none), source. ids / srcs are the ACCEPTED answers (the property does not say how a
+        # window is named: see spec_sub)
+        self.ids, self.dfn, self.srcs = tuple(ids), dfn, tuple(srcs)
 
     def copy(self, keep_mate=False):
-        """Copy(): fresh buffers, same features, NO mate (keep_mate: snapshot of the same object)"""
+        """Copy(): fresh buffers, same features, identifier, definition and source, NO mate (keep_mate: snapshot of the same object)"""
         return Val(self.seq, None if self.qual is None else list(self.qual), None if self.mm is None else dict(self.mm), self.feat,
-                   self.mate if keep_mate else None)
+                   self.mate if keep_mate else None, self.ids, self.dfn, self.srcs)
 
 
 def spec_rc(v):
@@ -139,7 +169,7 @@ def spec_rc(v):
         mm = {spec_revkey(k): L - p + 1 for k, p in mm.items()}
     elif mm is not None:
         mm = {}
-    return Val(spec_rc_seq(v.seq), None if v.qual is None else v.qual[::-1], mm, v.feat, v.mate)
+    return Val(spec_rc_seq(v.seq), None if v.qual is None else v.qual[::-1], mm, v.feat, v.mate, v.ids, v.dfn, v.srcs)
 
 
 def spec_sub(v, f, t, circ):
@@ -168,7 +198,15 @@ def spec_sub(v, f, t, circ):
         mm = nm
     elif mm is not None:
         mm = {}
-    return ("ok", Val(d[start:start + n], dq, mm, "", None))      # a window is a new object: no features, no mate
+    # a window is a new object: no features, no mate; it keeps the definition (an annotation). The property does not say how it is
+    # named: the code names it <id>_sub[first..last] (1-based) and a window stitched over the origin after its first part only
+    # (<id>_sub[first..|s|]) - both accepted; its source is empty (the source of the sequence it was cut from would be as good)
+    ids = []
+    for i in v.ids:
+        ids.append("%s_sub[%d..%d]" % (i, start + 1, start + n if start + n <= L else start + n - L))
+        if start + n > L:
+            ids.append("%s_sub[%d..%d]" % (i, start + 1, L))
+    return ("ok", Val(d[start:start + n], dq, mm, "", None, ids, v.dfn, tuple(set(("",) + v.srcs))))
 
 
 def oracle_history(ops):
@@ -191,12 +229,14 @@ def oracle_history(ops):
         status, res, same = "ok", -1, -1
         newobj = None
         r = op.get("r", 0)
-        v = objs[regs[r]] if k not in ("new", "churn", "gc") and r < len(regs) and regs[r] is not None else None
+        v = objs[regs[r]] if k not in ("new", "churn", "gc", "nilrc") and r < len(regs) and regs[r] is not None else None
+        flag = None
         if k == "new":
-            s = op["seq"] if op.get("via") in ("write", "writestring", "writebyte") else op["seq"].lower()
+            s = op["seq"] if op.get("via") in RAW_VIAS else op["seq"].lower()
             newobj = Val(s, None if op.get("qual") is None or len(op["qual"]) == 0 else list(op["qual"]),
-                         dict(op["mm"]) if op.get("hasmm") else None, op.get("feat", "") if op.get("hasfeat") else "")
-        elif v is None and k not in ("churn", "gc"):
+                         dict(op["mm"]) if op.get("hasmm") else None, op.get("feat", "") if op.get("hasfeat") else "",
+                         None, (op.get("id") or "s",), op.get("def") or None, (op.get("src") or "",))
+        elif v is None and k not in ("churn", "gc", "nilrc"):
             status = "err"
         elif k == "copy":
             newobj = v.copy()
@@ -212,7 +252,7 @@ def oracle_history(ops):
         elif k == "sub":
             e = spec_sub(v, op["from"], op["to"], op["circ"])
             if e is None:
-                out.append((None, None, None, None))
+                out.append((None, None, None, None, None))
                 return out          # outside the stated domain: nothing is claimed from here on
             if e[0] == "err":
                 status = "err"
@@ -240,6 +280,25 @@ def oracle_history(ops):
             v.seq = v.seq + op["seq"]
         elif k == "setqual":
             v.qual = list(op["qual"]) if op["qual"] else None
+        elif k == "clear":
+            v.seq = ""
+        elif k == "clearqual":
+            v.qual = None
+        elif k == "writeq":
+            if op["qual"]:
+                v.qual = (v.qual or []) + list(op["qual"])
+        elif k == "setid":
+            v.ids = (op["id"],)
+        elif k == "setdef":
+            v.dfn = op["def"] or None
+        elif k == "setsrc":
+            v.srcs = (op["src"],)
+        elif k == "sameas":
+            r2 = op["r2"]
+            if r2 >= len(regs) or regs[r2] is None:
+                status = "err"
+            else:
+                flag = v.seq == objs[regs[r2]].seq
         elif k == "setfeat":
             v.feat = op["feat"]
         elif k == "poke":
@@ -274,7 +333,7 @@ def oracle_history(ops):
             res = len(regs)
             objs.append(newobj)
             regs.append(len(objs) - 1)
-        out.append((status, res, same, snap()))
+        out.append((status, res, same, snap(), flag))
     return out
 
 
@@ -292,12 +351,44 @@ def val_matches(exp, got):
         return False
     if got.get("feat", "") != exp.feat or got.get("mate", -1) != mate:
         return False
+    if "id" in got:           # round 3: the other accessors
+        if got["id"] not in exp.ids or got.get("src", "") not in exp.srcs or got.get("hassrc") != (got.get("src", "") != ""):
+            return False
+        if (got.get("def", "") or None) != exp.dfn or got.get("hasdef", False) != (exp.dfn is not None):
+            return False
+        if got.get("len") != len(exp.seq) or got.get("hasseq") != (len(exp.seq) > 0):
+            return False
+    if "md5" in got:          # final snapshot: MD5String, Composition, QualitiesString
+        if final_extras_failure(exp, got):
+            return False
     gm = got.get("mm")
     if exp.mm is None:
         return gm is None
     if gm is None:
         return False
     return sorted((k.lower(), p) for k, p in exp.mm.items()) == sorted((k.lower(), p) for k, p in gm)
+
+
+LOWER = set(IUPAC)
+
+
+def final_extras_failure(exp, got):
+    """MD5String(), Composition() and QualitiesString() of a live object against the value it must hold"""
+    import hashlib
+    if got["md5"] != hashlib.md5(exp.seq.encode("latin1", "replace")).hexdigest():
+        return "MD5String"
+    comp = dict((chr(k), n) for k, n in got.get("comp") or [])
+    if sum(comp.values()) != len(exp.seq):
+        return "Composition: the counts do not add up to the length"
+    if set(exp.seq) <= LOWER:      # the alphabet of the property: a, c, g, t counted, everything else under o
+        want = dict((ch, exp.seq.count(ch)) for ch in "acgt")
+        want["o"] = len(exp.seq) - sum(want.values())
+        if comp != want:
+            return "Composition"
+    q = exp.qual if exp.qual is not None else [40] * len(exp.seq)
+    if got.get("qstr") != "".join(chr(min(x, 93) + 33) for x in q):
+        return "QualitiesString"
+    return None
 
 
 def check_history(c, o):
@@ -308,7 +399,9 @@ def check_history(c, o):
     for i, (e, st) in enumerate(zip(exp, o["steps"])):
         if e[0] is None:
             return None
-        status, res, same, snap = e
+        status, res, same, snap, flag = e
+        if flag is not None and st.get("flag") != flag:
+            return "step %d (sameas): answered %s, expected %s" % (i, st.get("flag"), flag)
         if st["status"] != status:
             return "step %d (%s): status %s (%s), expected %s" % (i, c["ops"][i]["op"], st["status"], st.get("msg", ""), status)
         if st["res"] != res:
@@ -320,7 +413,13 @@ def check_history(c, o):
         for r, (ev, gv) in enumerate(zip(snap, st["snap"])):
             if not val_matches(ev, gv):
                 return "after step %d (%s) register %d holds %s, expected %s" % (
-                    i, c["ops"][i]["op"], r, json.dumps(gv), "dead" if ev is None else json.dumps(dict(seq=ev[0].seq, qual=ev[0].qual, mm=ev[0].mm, feat=ev[0].feat, mate=ev[1])))
+                    i, c["ops"][i]["op"], r, json.dumps(gv), "dead" if ev is None else json.dumps(dict(seq=ev[0].seq, qual=ev[0].qual, mm=ev[0].mm, feat=ev[0].feat, mate=ev[1],
+                                                                                                      id=ev[0].ids, definition=ev[0].dfn, source=ev[0].srcs)))
+    if exp and exp[-1][0] is not None and len(exp) == len(o["steps"]):      # the final snapshot carries MD5String / Composition / QualitiesString
+        for r, (ev, gv) in enumerate(zip(exp[-1][3], o["final"])):
+            if not val_matches(ev, gv):
+                return "at the end register %d holds %s, expected %s%s" % (r, json.dumps(gv), "dead" if ev is None else json.dumps(dict(seq=ev[0].seq, qual=ev[0].qual)),
+                                                                            "" if ev is None or not gv.get("live") else " (%s)" % final_extras_failure(ev[0], gv))
     law = c.get("law")
     if law:                         # laws checked on the implementation's own objects (both sides computed by the real code)
         a, b = o["final"][law[1]], o["final"][law[2]]
@@ -356,7 +455,8 @@ def rmm(rng, L, kmax=4):
     return m
 
 
-VIAS = ["", "setseq", "write", "writestring", "writebyte"]
+VIAS = ["", "setseq", "write", "writestring", "writebyte", "grow", "withqual"]
+RAW_VIAS = ("write", "writestring", "writebyte", "grow")     # constructors that store the bytes as given
 FEATS = ["FT   source          1..%d", "FT   CDS             <1..>%d\nFT                   /codon_start=2", "F", "FH   Key             Location/Qualifiers " + "x" * 330]
 
 
@@ -365,21 +465,51 @@ def rfeat(rng, L):
     return f % L if "%d" in f else f
 
 
+IDS = ["s", "x1", "Seq-42", "r7_sub[3..9]"]
+DEFS = ["a definition", "x", "count=3; what ever"]
+MMTYPES = ["", "", "iface", "ifaceint", "float"]
+
+
 def new_op(rng, L, alpha=IUPAC, pq=0.5, pm=0.4, pf=0.25, pvia=0.3):
-    """a constructor: NewBioSequence, or NewEmptyBioSequence + SetSequence / Write / WriteString / WriteByte (the Write family
-    stores the bytes as given: upper-case input stays upper case); n = preallocated capacity of the empty object"""
+    """a constructor: NewBioSequence, NewBioSequenceWithQualities, or NewEmptyBioSequence + SetSequence / Write / WriteString /
+    WriteByte / Grow + Write (the Write family stores the bytes as given: upper-case input stays upper case); n = preallocated capacity of
+    the empty object / room reserved by Grow. Round 3: identifier, definition, source; pairing_mismatches stored as map[string]int (what
+    the aligner writes) or as the header parsers store it (map[string]interface{} holding float64 / int, map[string]float64)"""
     s = rseq(rng, L, alpha)
     if rng.random() < 0.15:
         s = s.upper()
     hasmm = rng.random() < pm and L > 0
     op = dict(op="new", seq=s, qual=rqual(rng, L) if rng.random() < pq and L > 0 else None, hasmm=hasmm,
               mm=rmm(rng, L) if hasmm else None)
+    if hasmm:
+        op["mmtype"] = rng.choice(MMTYPES)
     if rng.random() < pvia:
         op["via"] = rng.choice(VIAS[1:])
-        op["n"] = rng.choice([0, 0, L, L + 7, 300, 2 * L + 1])
+        if op["via"] == "withqual" and op["qual"] is None:
+            op["via"] = "grow"
+        op["n"] = rng.choice([0, 0, L, L + 7, 300, 2 * L + 1]) if op["via"] != "grow" else rng.choice([1, L, L + 7, 300, 301, 1024, 1025])
     if rng.random() < pf:
         op["hasfeat"], op["feat"] = True, rfeat(rng, L)
+    z = rng.random()
+    if z < 0.3:
+        op["id"] = rng.choice(IDS)
+    if z < 0.2 or z > 0.9:
+        op["def"] = rng.choice(DEFS)
+    if 0.1 < z < 0.35:
+        op["src"] = rng.choice(["file1", "reads_R1"])
     return op
+
+
+def mm_all_positions(rng, L):
+    """one mismatch on EVERY position 1..L (every (window, position) pair of the window sweep: the base just before the window, its
+    first and last base, the last base of the source)"""
+    m = {}
+    while len(m) < L:
+        k = rkey(rng)
+        if k.lower() in {x.lower() for x in m} or spec_revkey(k).lower() in {spec_revkey(x).lower() for x in m}:
+            continue
+        m[k] = len(m) + 1
+    return m
 
 
 MM2 = {"(A:30)->(C:20)": 50, "(G:12)->(T:07)": 5}
@@ -435,6 +565,49 @@ CORPUS = [
     dict(tag="reuse", ops=[dict(op="new", seq="acgtacgt", qual=[1, 2, 3, 4, 5, 6, 7, 8]), dict(op="copy", r=0), dict(op="recycle", r=0), dict(op="sub", r=1, **{"from": 2}, to=6, circ=False),
                            dict(op="rc", r=1, inplace=False), dict(op="recycle", r=1), dict(op="copy", r=2), dict(op="setqual", r=3, qual=[9] * 8), dict(op="poke", r=2, i=0, b=ord("n")),
                            dict(op="recycle", r=3), dict(op="new", seq="t" * 301), dict(op="recycle", r=5), dict(op="new", seq="g" * 20), dict(op="copy", r=4)]),
+    # round 3 ---------------------------------------------------------------------------------------------------------------
+    # identifier, definition and source of derived objects (a copy is a copy; a window is named after its coordinates)
+    dict(tag="copy-keeps-source", ops=[dict(op="new", seq="acgtacgtac", qual=list(range(10)), id="x1", src="file1", **{"def": "a definition"}), dict(op="copy", r=0),
+                                       dict(op="rc", r=0, inplace=False), dict(op="sub", r=0, **{"from": 2}, to=6, circ=False), dict(op="sub", r=0, **{"from": 7}, to=3, circ=True),
+                                       dict(op="join", r=0, r2=1, inplace=False), dict(op="setdef", r=1, **{"def": ""}), dict(op="setsrc", r=2, src="other"), dict(op="setid", r=3, id="w"),
+                                       dict(op="setdef", r=0, **{"def": "changed"}), dict(op="sub", r=3, **{"from": 1}, to=3, circ=False), dict(op="sameas", r=0, r2=1), dict(op="sameas", r=0, r2=2)]),
+    # Clear / ClearQualities empty the object but keep its buffers; Write + WriteQualities (WriteByteQualities) refill it
+    dict(tag="clear-refill", ops=[dict(op="new", seq="acgtrykm", qual=[1, 2, 3, 4, 5, 6, 7, 8]), dict(op="copy", r=0), dict(op="clear", r=0), dict(op="clearqual", r=0),
+                                  dict(op="write", r=0, seq="ggn"), dict(op="writeq", r=0, qual=[9, 8, 7]), dict(op="rc", r=0, inplace=False), dict(op="write", r=0, seq="t", via="writebyte"),
+                                  dict(op="writeq", r=0, qual=[94], via="byte"), dict(op="rc", r=0, inplace=True), dict(op="grow", r=0, n=2000), dict(op="grow", r=1, n=5), dict(op="rc", r=1, inplace=True),
+                                  dict(op="recycle", r=0), dict(op="churn", n=4, b=300)]),
+    # notes of the seeding rounds: two ReverseComplement(false) of ONE object with a change of the first result / of the source in between
+    dict(tag="rc-twice-result-modified", ops=[dict(op="new", seq="acgtrykmbdhvn-ac", qual=list(range(16))), dict(op="rc", r=0, inplace=False), dict(op="rc", r=1, inplace=True),
+                                              dict(op="rc", r=0, inplace=False), dict(op="write", r=1, seq="gg"), dict(op="rc", r=0, inplace=False, via="worker")]),
+    dict(tag="rc-twice-result-recycled", ops=[dict(op="new", seq="acgtrykmbdhvn-ac"), dict(op="rc", r=0, inplace=False), dict(op="recycle", r=1), dict(op="rc", r=0, inplace=False),
+                                              dict(op="churn", n=6, b=300), dict(op="rc", r=2, inplace=False)], law=["rc (rc s) = s", 0, 3]),
+    dict(tag="rc-twice-source-appended", ops=[dict(op="new", seq="acgtrykmbdhvn-ac"), dict(op="new", seq="ggk"), dict(op="rc", r=0, inplace=False), dict(op="join", r=0, r2=1, inplace=True),
+                                              dict(op="rc", r=0, inplace=False), dict(op="rc", r=4, inplace=False), dict(op="write", r=0, seq="t", via="writebyte"), dict(op="rc", r=0, inplace=False),
+                                              dict(op="clear", r=0), dict(op="write", r=0, seq="ac", via="writestring"), dict(op="rc", r=0, inplace=False)]),
+    dict(tag="rc-twice-qualities-appended", ops=[dict(op="new", seq="acgt", qual=[1, 2, 3, 4]), dict(op="rc", r=0, inplace=False), dict(op="write", r=0, seq="nn"), dict(op="writeq", r=0, qual=[7, 8]),
+                                                 dict(op="rc", r=0, inplace=False), dict(op="clear", r=0), dict(op="clearqual", r=0), dict(op="rc", r=0, inplace=False)]),
+    # mismatches on the base just before the window, on its first / last base, on the last base of the source; windows starting at 0; a full turn
+    dict(tag="mm-boundary", ops=[dict(op="new", seq="acgtacgtac", qual=list(range(10)), hasmm=True, mm={"(A:30)->(C:20)": 3, "(G:12)->(T:07)": 4, "(C:01)->(T:02)": 8, "(A:03)->(G:04)": 9,
+                                                                                                       "(T:05)->(G:06)": 10, "(C:07)->(A:08)": 1}),
+                                 dict(op="sub", r=0, **{"from": 3}, to=8, circ=False), dict(op="sub", r=0, **{"from": 0}, to=9, circ=False), dict(op="sub", r=0, **{"from": 0}, to=10, circ=False),
+                                 dict(op="sub", r=0, **{"from": 3}, to=3, circ=True), dict(op="sub", r=0, **{"from": 9}, to=3, circ=True), dict(op="sub", r=0, **{"from": 0}, to=10, circ=True),
+                                 dict(op="sub", r=0, **{"from": 10}, to=0, circ=True), dict(op="sub", r=0, **{"from": 8}, to=18, circ=True)]),
+    # pairing_mismatches as a header parser stores it (the output of obipairing read back from a file)
+    dict(tag="mm-from-json", ops=[dict(op="new", seq="acgtacgtac", hasmm=True, mm={"(A:30)->(C:20)": 3, "(G:12)->(T:07)": 10}, mmtype="iface"), dict(op="copy", r=0), dict(op="rc", r=0, inplace=False),
+                                  dict(op="sub", r=0, **{"from": 2}, to=10, circ=False), dict(op="rc", r=0, inplace=True, via="worker"), dict(op="pokemm", r=1, key="(A:30)->(C:20)", b=7),
+                                  dict(op="setmm", r=1, mm={"(T:30)->(C:21)": 1}, mmtype="float"), dict(op="rc", r=1, inplace=False), dict(op="sub", r=1, **{"from": 0}, to=1, circ=False)]),
+    # the two other constructors
+    dict(tag="constructors", ops=[dict(op="new", seq="ACGTNacgtn", qual=list(range(10)), via="withqual", id="q1", **{"def": "x"}), dict(op="rc", r=0, inplace=False),
+                                  dict(op="new", seq="acgtn", via="grow", n=300), dict(op="new", seq="acgtn", via="grow", n=1025), dict(op="new", seq="acgtn", via="grow", n=2),
+                                  dict(op="rc", r=2, inplace=True), dict(op="recycle", r=2), dict(op="churn", n=4, b=300), dict(op="nilrc", inplace=False), dict(op="nilrc", inplace=True)]),
+    # SameAs: same symbols (whatever the qualities), one differing symbol at the far end, a prefix
+    dict(tag="sameas", ops=[dict(op="new", seq="acgtacgtacgtacgtnn", qual=list(range(18))), dict(op="copy", r=0), dict(op="sameas", r=0, r2=1), dict(op="poke", r=1, i=17, b=ord("a")),
+                            dict(op="sameas", r=0, r2=1), dict(op="sameas", r=1, r2=0), dict(op="sub", r=0, **{"from": 0}, to=17, circ=False), dict(op="sameas", r=0, r2=2),
+                            dict(op="setqual", r=1, qual=[1] * 18), dict(op="poke", r=1, i=17, b=ord("n")), dict(op="sameas", r=0, r2=1), dict(op="new", seq=""), dict(op="sameas", r=3, r2=3),
+                            dict(op="sameas", r=3, r2=0)]),
+    # an empty sequence has no linear window (error, no panic)
+    dict(tag="empty-linear", ops=[dict(op="new", seq=""), dict(op="sub", r=0, **{"from": 0}, to=1, circ=False), dict(op="sub", r=0, **{"from": 0}, to=0, circ=False), dict(op="copy", r=0),
+                                  dict(op="rc", r=0, inplace=True, via="worker"), dict(op="join", r=0, r2=1, inplace=False)]),
 ]
 
 
@@ -444,6 +617,8 @@ def gen_windows(rng, lengths):
     for L in lengths:
         for variant in range(2):
             nw = new_op(rng, L, pq=1.0 if variant else 0.0, pm=1.0 if variant else 0.0)
+            if variant:
+                nw["mm"] = mm_all_positions(rng, L)
             for f in range(-1, 2 * L + 2):
                 for t in range(-2, 2 * L + 3):
                     for circ in (False, True):
@@ -476,6 +651,88 @@ def gen_laws(rng, n, maxlen):
     return cases
 
 
+def append_ops(rng, r, v, n=None):
+    """append n symbols; the scores follow when the object has qualities (or is empty and gets some): one score per symbol stays true"""
+    n = rng.randrange(1, 9) if n is None else n
+    w = dict(op="write", r=r, seq=rseq(rng, n), via=rng.choice(["", "writestring", "writebyte"]))
+    if v.qual is not None or (len(v.seq) == 0 and rng.random() < 0.5):
+        return [w, dict(op="writeq", r=r, qual=rqual(rng, n), via=rng.choice(["", "byte"]))]
+    return [w]
+
+
+def clear_ops(r, v):
+    return [dict(op="clear", r=r)] + ([dict(op="clearqual", r=r)] if v.qual is not None else [])
+
+
+def round3_ops(rng, r, v, lv, nregs):
+    """the operations added in round 3: Clear / ClearQualities / WriteQualities / Grow, identifier / definition / source, SameAs, nil receiver"""
+    z = rng.random()
+    if z < 0.2:
+        return clear_ops(r, v) + (append_ops(rng, r, Val("", None, None)) if rng.random() < 0.7 else [])
+    if z < 0.45:
+        return append_ops(rng, r, v)
+    if z < 0.55:
+        return [dict(op="grow", r=r, n=rng.choice([0, 1, 7, 300, 1025, 3000]))]
+    if z < 0.65:
+        return [dict(op="setid", r=r, id=rng.choice(IDS))]
+    if z < 0.78:
+        return [dict(op="setdef", r=r, **{"def": rng.choice(DEFS + [""])})]
+    if z < 0.86:
+        return [dict(op="setsrc", r=r, src=rng.choice(["", "file1", "f2"]))]
+    if z < 0.96:
+        # SameAs against an unrelated object, against a copy, and against a copy that differs in ONE symbol (anywhere: first, late, last)
+        y = rng.random()
+        if y < 0.3 or len(v.seq) == 0:
+            return [dict(op="sameas", r=r, r2=rng.choice(lv))]
+        res = [dict(op="copy", r=r)]
+        if y < 0.8:
+            i = rng.choice([0, len(v.seq) - 1, rng.randrange(0, len(v.seq))])
+            res.append(dict(op="poke", r=nregs, i=i, b=ord(rng.choice([c for c in IUPAC if c != v.seq[i].lower()]))))
+        return res + [dict(op="sameas", r=r, r2=nregs), dict(op="sameas", r=nregs, r2=r)]
+    return [dict(op="nilrc", inplace=rng.random() < 0.5)]
+
+
+def gen_rc_twice(rng):
+    """several ReverseComplement(false) of ONE object with a change of an earlier result or of the source in between (a cache of the
+    reverse complement would have to be dropped by every one of them), then the involution law on the last result"""
+    L = rng.choice([1, 2, 3, 5, 8, 16, 17, 40])
+    ops = [new_op(rng, L, pvia=0.5)]
+    for turn in range(rng.randrange(2, 5)):
+        ops.append(dict(op="rc", r=0, inplace=False, **(dict(via="worker") if rng.random() < 0.3 else {})))
+        st = oracle_history(ops)
+        last = st[-1][1]
+        src, res = st[-1][3][0][0], st[-1][3][last][0]
+        z = rng.random()
+        if z < 0.12:
+            ops.append(dict(op="rc", r=last, inplace=True))
+        elif z < 0.24:
+            ops += append_ops(rng, last, res)
+        elif z < 0.34:
+            ops.append(dict(op="recycle", r=last))
+            if rng.random() < 0.5:
+                ops.append(dict(op="churn", n=4, b=300))
+        elif z < 0.5:
+            ops += append_ops(rng, 0, src)
+        elif z < 0.6:
+            ops.append(dict(op="join", r=0, r2=rng.choice([0, last]), inplace=True))
+        elif z < 0.7:
+            # emptied, then refilled most of the time (an emptied object is reverse complemented as it is otherwise)
+            ops += clear_ops(0, src) + (append_ops(rng, 0, Val("", None, None) if src.qual is None else Val("", [], None), n=rng.randrange(1, 6)) if rng.random() < 0.65 else [])
+        elif z < 0.78 and len(src.seq) > 0:
+            ops.append(dict(op="poke", r=0, i=rng.randrange(0, len(src.seq)), b=ord(rng.choice(IUPAC))))
+        elif z < 0.86:
+            ops.append(dict(op="setseq", r=0, seq=rseq(rng, len(src.seq) if src.qual is not None else rng.randrange(1, 20))))
+        elif z < 0.93 and len(src.seq) > 0:
+            ops.append(dict(op="setqual", r=0, qual=rqual(rng, len(src.seq))))
+        else:
+            ops.append(dict(op="rc", r=0, inplace=True))
+    ops.append(dict(op="rc", r=0, inplace=False))
+    a = oracle_history(ops)[-1][1]
+    ops.append(dict(op="rc", r=a, inplace=False))
+    b = oracle_history(ops)[-1][1]
+    return dict(tag="rc-twice", ops=ops, law=["rc (rc s) = s", 0, b])
+
+
 def gen_history(rng, nops, maxlen, precycle=0.05):
     ops = [new_op(rng, rng.randrange(0, maxlen + 1))]
     vals = oracle_history(ops)          # to know lengths / liveness while generating
@@ -496,10 +753,13 @@ def gen_history(rng, nops, maxlen, precycle=0.05):
         r = rng.choice(lv)
         v = snap[r]
         L = len(v[0].seq)
+        if rng.random() < 0.12:
+            ops += round3_ops(rng, r, v[0], lv, len(snap))
+            continue
         if k < 0.18:
             ops.append(dict(op="copy", r=r))
         elif k < 0.36:
-            ops.append(dict(op="rc", r=r, inplace=rng.random() < 0.5))
+            ops.append(dict(op="rc", r=r, inplace=rng.random() < 0.5, **(dict(via="worker") if rng.random() < 0.3 else {})))
         elif k < 0.50 and L > 0:
             circ = rng.random() < 0.4
             f = rng.randrange(0, L)
@@ -619,7 +879,7 @@ def feat_of(op):
 
 
 def lower_of(op):
-    return "false" if op.get("via") in ("write", "writestring", "writebyte") else "true"
+    return "false" if op.get("via") in RAW_VIAS else "true"
 
 
 def op_term(op):
@@ -660,7 +920,17 @@ def op_term(op):
         return "OPair %d%%nat %d%%nat" % (op["r"], op["r2"])
     if k == "unpair":
         return "OUnpair %d%%nat" % op["r"]
+    if k in EDITS:
+        return "OEdit %d%%nat %s" % (op["r"], edit_term(op))
     return "ONop"
+
+
+EDITS = ("clear", "clearqual", "writeq", "grow")
+
+
+def edit_term(op):
+    k = op["op"]
+    return "EClear" if k == "clear" else "EClearQ" if k == "clearqual" else "EGrow" if k == "grow" else "(EWriteQ %s)" % nlist(op["qual"])
 
 
 def val_term(v):
@@ -674,6 +944,11 @@ def val_term(v):
 def case_term(c, o):
     steps = "[" + ";".join("(%s, (%d)%%Z, (%d)%%Z)" % (dict(ok="SOk", err="SErr", panic="SPanic")[s["status"]], s["res"], s["same"]) for s in o["steps"]) + "]"
     return "mkh [%s]\n  %s\n  [%s]" % (";\n  ".join(op_term(op) for op in c["ops"]), steps, ";".join(val_term(v) for v in o["final"]))
+
+
+def xcase_term(v):
+    """Composition() and QualitiesString() of one live object of a final snapshot (Model.xcase)"""
+    return "mkx %s %s [%s] %s" % (sq(v["seq"]), nlist(v["qual"]) if v["hasq"] else "[]", ";".join("(%d, %d)" % (k, n) for k, n in v.get("comp") or []), sq(v.get("qstr") or ""))
 
 
 def choice_term(rng):
@@ -719,6 +994,8 @@ def cop_term(op, rng):
         return "CPokeMm %d%%nat %s (%d)%%Z" % (op["r"], sq(op["key"]), op["b"])
     if k == "recycle":
         return "CRecycle %d%%nat" % op["r"]
+    if k in EDITS:
+        return "CEdit %d%%nat %s" % (op["r"], edit_term(op))
     if k == "churn":
         return "CChurn %d%%nat %s" % (rng.randrange(0, 4), nlist([0xDB] * rng.randrange(0, 6)))
     return "CChurn 99%nat []"
@@ -869,19 +1146,36 @@ def evaluate(ctx, cases, broken, label, corr=True, heap=True):
         h_idx = [i for i in ok_idx if cases[i].get("tag") in ("history", "reuse", "pool-setqualities", "pool-setfeatures") or str(cases[i].get("tag", "")).startswith("revcomp-backlink")] if heap else []
         hterms = [ccase_term(cases[i], obs[i], ctx.rng) for i in h_idx]
         vterms = [case_term(cases[i], obs[i]) for i in ok_idx]
-        # (quick tier only: in the thorough tier 3 x 14 coqc at once need too much memory on a shared machine)
-        with ThreadPoolExecutor(max_workers=3 if ctx.quick else 1) as ex:
+        # the accessors Composition / QualitiesString of the distinct live objects of the final snapshots (Model.xcase)
+        xseen, xterms, xowner = set(), [], []
+        for i in ok_idx:
+            for v in obs[i].get("final") or []:
+                # (objects over the alphabet of the property only: what Composition does with other bytes is not the property's business)
+                if v.get("live") and "md5" in v and len(v["seq"]) <= 300 and set(v["seq"]) <= LOWER:
+                    key = (v["seq"], tuple(v["qual"]) if v["hasq"] else None)
+                    if key not in xseen and len(xterms) < (600 if ctx.quick else 20000):
+                        xseen.add(key)
+                        xterms.append(xcase_term(v))
+                        xowner.append(i)
+        # (quick tier only: in the thorough tier 4 x 14 coqc at once need too much memory on a shared machine)
+        with ThreadPoolExecutor(max_workers=4 if ctx.quick else 1) as ex:
+            f4 = ex.submit(correspond_retry, ctx, label + "_accessors", IMPORTS, xterms, "xmismatches", 200)
             f1 = ex.submit(correspond_retry, ctx, label, IMPORTS, vterms, "mismatches", 150 if label != "longreuse" else 3)
             f2 = ex.submit(coq_list, ctx, label + "_trace", IMPORTS_TRACE, terms, "trace_summary", tshard)
             f3 = ex.submit(correspond_retry, ctx, label + "_heap", IMPORTS_HEAP, hterms, "heap_mismatches", 150) if heap else None
             bad, err = f1.result()
             tres = f2.result()
             bad2, err2 = f3.result() if f3 else ([], None)
-        lap("coq_three_passes")
+            bad4, err4 = f4.result()
+        lap("coq_passes")
+        if bad4 is None:
+            broken.append(dict(kind="correspondence", detail=err4))
+        else:
+            ctx.cov["accessor_model_evaluations"] = ctx.cov.get("accessor_model_evaluations", 0) + len(xterms)
         if bad is None:
             broken.append(dict(kind="correspondence", detail=err))
         else:
-            mism = [ok_idx[i] for i in bad]
+            mism = sorted(set(ok_idx[i] for i in bad) | set(xowner[i] for i in (bad4 or [])))
         # TRACE VALIDATION: the real Get / Recycle events of every step and the identities of the registers' buffers, replayed on the
         # ownership model with the hand-out choices the real pool made (Trace.v)
         bad3, err3, nre = [], None, 0
@@ -923,6 +1217,168 @@ def evaluate(ctx, cases, broken, label, corr=True, heap=True):
     return obs, failing, mism
 
 
+# ---------------------------------------------------------------- command level: obicomplement (ReverseComplementWorker(true) behind the
+# readers, the worker pool and the writers) against the same oracle and against the in-process run
+def cmd_records(rng, n):
+    recs = []
+    for i in range(n):
+        z = rng.random()
+        L = rng.randrange(1, 61) if z < 0.8 else rng.randrange(280, 330) if z < 0.93 else rng.randrange(1000, 1100)
+        s = rseq(rng, L)
+        if rng.random() < 0.1:
+            s = s.upper()
+        r = dict(id="r%04d" % i, seq=s, qual=[rng.randrange(0, 94) for _ in range(L)], mm=rmm(rng, L) if rng.random() < 0.4 else None,
+                 dfn=rng.choice(DEFS) if rng.random() < 0.3 else None, count=rng.randrange(1, 50) if rng.random() < 0.3 else None)
+        recs.append(r)
+    return recs
+
+
+def cmd_header(r):
+    a = {}
+    if r["mm"] is not None:
+        a["pairing_mismatches"] = r["mm"]
+    if r["dfn"] is not None:
+        a["definition"] = r["dfn"]
+    if r["count"] is not None:
+        a["count"] = r["count"]
+    return r["id"] + (" " + json.dumps(a) if a else "")
+
+
+def cmd_write(path, recs, fastq):
+    with open(path, "w") as f:
+        for r in recs:
+            if fastq:
+                f.write("@%s\n%s\n+\n%s\n" % (cmd_header(r), r["seq"], "".join(chr(q + 33) for q in r["qual"])))
+            else:
+                f.write(">%s\n" % cmd_header(r) + "".join(r["seq"][k:k + 60] + "\n" for k in range(0, len(r["seq"]), 60)))
+
+
+def cmd_parse(text):
+    """records of a FASTA / FASTQ output with JSON headers: (id, seq, qual | None, annotations)"""
+    out, lines, i = [], text.split("\n"), 0
+    while i < len(lines):
+        l = lines[i]
+        if not l:
+            i += 1
+            continue
+        head, _, rest = l[1:].partition(" ")
+        rest = rest.strip()
+        ann = json.loads(rest) if rest.startswith("{") else {}
+        if l[0] == "@":
+            out.append(dict(id=head, seq=lines[i + 1], qual=[ord(ch) - 33 for ch in lines[i + 3]], ann=ann))
+            i += 4
+        else:
+            j, sq = i + 1, []
+            while j < len(lines) and not lines[j].startswith(">"):
+                sq.append(lines[j])
+                j += 1
+            out.append(dict(id=head, seq="".join(sq), qual=None, ann=ann))
+            i = j
+    return out
+
+
+def cmd_expected(r, times, fastq):
+    v = Val(r["seq"].lower(), list(r["qual"]) if fastq else None, dict(r["mm"]) if r["mm"] is not None else None)
+    for _ in range(times):
+        v = spec_rc(v)
+    return v
+
+
+def cmd_record_failure(r, got, times, fastq):
+    e = cmd_expected(r, times, fastq)
+    if got["id"] != r["id"]:
+        return "identifier %r" % got["id"]
+    if got["seq"] != e.seq:
+        return "sequence %r, expected %r" % (got["seq"][:80], e.seq[:80])
+    if got["qual"] != e.qual:
+        return "qualities %r, expected %r" % (got["qual"], e.qual)
+    gm = got["ann"].get("pairing_mismatches")
+    if (gm is None) != (e.mm is None) or (gm is not None and sorted((k.lower(), p) for k, p in gm.items()) != sorted((k.lower(), p) for k, p in e.mm.items())):
+        return "pairing_mismatches %r, expected %r" % (gm, e.mm)
+    if got["ann"].get("definition") != r["dfn"] or got["ann"].get("count") != r["count"]:
+        return "definition / count %r %r" % (got["ann"].get("definition"), got["ann"].get("count"))
+    return None
+
+
+CMD_RUNS = [  # name, arguments after the program (%s = input file), fastq input, number of reverse complements, ordered output
+    ("fastq", "%s", True, 1, True),
+    ("fasta", "%s", False, 1, True),
+    ("fastq-twice-through-stdin", "%s | {bin} ", True, 2, True),
+    ("fastq-no-order-4cpu", "--no-order --max-cpu 4 --batch-size 7 %s", True, 1, False),
+    ("fasta-one-cpu-small-batches", "--force-one-cpu --batch-size 3 %s", False, 1, True),
+    ("fastq-to-file-gz", "-Z -o {out}.gz %s && gzip -dc {out}.gz", True, 1, True),
+]
+
+
+def run_commands(ctx, broken, only=None, recs=None):
+    import time
+    t0 = time.time()
+    bindir, err = ctx.build_cmds(["obicomplement"])
+    if bindir is None:
+        broken.append(dict(kind="command-build", detail=err))
+        return
+    prog = os.path.join(bindir, "obicomplement")
+    d = os.path.join(VERIF, ".build", "c07_cmd_%d" % os.getpid())
+    os.makedirs(d, exist_ok=True)
+    recs = recs if recs is not None else cmd_records(ctx.rng, 150 if ctx.quick else 1500)
+    fq, fa = os.path.join(d, "in.fastq"), os.path.join(d, "in.fasta")
+    cmd_write(fq, recs, True)
+    cmd_write(fa, recs, False)
+    from vlib import sh
+    stats = {}
+    outputs = {}
+    try:
+        for name, args, fastq, times, ordered in CMD_RUNS:
+            if only and name != only:
+                continue
+            line = "%s %s" % (prog, args.replace("{bin}", prog).replace("{out}", os.path.join(d, "out_" + name)) % (fq if fastq else fa))
+            rc, out, errt, dt = sh(line + " 2>/dev/null", timeout=120)
+            bad = None
+            try:
+                got = cmd_parse(out) if rc == 0 else None
+            except Exception as e:
+                got, bad = None, "unreadable output: %r" % e
+            if got is None:
+                bad = bad or "exit status %d" % rc
+            elif len(got) != len(recs):
+                bad = "%d records written for %d records read" % (len(got), len(recs))
+            if bad:
+                ctx.violation("cmd_%s" % name, dict(property="C07", kind="command", run=name, command=line, why=bad, records=recs[:5]))
+                continue
+            if not ordered:
+                got = sorted(got, key=lambda g: g["id"])
+            outputs[name] = got
+            nbad = 0
+            for r, g in zip(recs, got):
+                why = cmd_record_failure(r, g, times, fastq)
+                if why:
+                    nbad += 1
+                    if nbad <= 2:
+                        ctx.violation("cmd_%s_%s" % (name, r["id"]), dict(property="C07", kind="command", run=name, command=line, why="record %s: %s" % (r["id"], why),
+                                                                        records=[r], implementation=g))
+            stats[name] = dict(records=len(got), failing=nbad)
+        # differential with the in-process run the histories judge: the same records through NewBioSequence + SetQualities + the header's
+        # pairing_mismatches as a parser stores it + ReverseComplementWorker(true)
+        if not only:
+            hc = [dict(kind="hist", each=False, ops=[dict(op="new", seq=r["seq"], qual=r["qual"], hasmm=r["mm"] is not None, mm=r["mm"], mmtype="iface"),
+                                                     dict(op="rc", r=0, inplace=True, via="worker")]) for r in recs]
+            obs = run_harness(ctx, hc, timeout=120)
+            nd = 0
+            for r, o, g in zip(recs, obs, outputs.get("fastq") or []):
+                f = (o.get("final") or [{}])[0]
+                gm = g["ann"].get("pairing_mismatches")
+                if f.get("seq") != g["seq"] or f.get("qual") != g["qual"] or (None if f.get("mm") is None else sorted((k, p) for k, p in f["mm"])) != (None if gm is None else sorted(gm.items())):
+                    nd += 1
+                    if nd <= 2:
+                        ctx.violation("cmd_differential_%s" % r["id"], dict(property="C07", kind="command", run="fastq", why="record %s: the command and the in-process ReverseComplementWorker(true) differ" % r["id"],
+                                                                           records=[r], implementation=g, in_process=f))
+            stats["in_process_differential"] = dict(records=len(obs), differing=nd)
+    finally:
+        import shutil
+        shutil.rmtree(d, ignore_errors=True)
+    ctx.cov["commands"] = dict(obicomplement=stats, seconds=round(time.time() - t0, 1))
+
+
 def replay_tables(ctx, t, broken):
     """The table theorems are finite: compute the failing symbol from the dumped tables and replay it on the code."""
     seen = set()
@@ -956,6 +1412,7 @@ def run(ctx, broken):
             for tup in itertools.product("ac[n", repeat=L):
                 cases.append(dict(tag="rc-exhaustive", ops=[dict(op="new", seq="".join(tup), qual=list(range(L)), hasmm=False, mm=None),
                                                             dict(op="rc", r=0, inplace=False), dict(op="rc", r=0, inplace=True)]))
+    cases += [gen_rc_twice(rng) for _ in range(60 if quick else 600)]
     nh = 200 if quick else 2000
     for i in range(nh):
         cases.append(gen_history(rng, rng.randrange(3, 14), rng.choice([4, 8, 12, 40]) if i % 10 else 400))
@@ -969,6 +1426,7 @@ def run(ctx, broken):
     ctx.cov["long_cases_oracle_only"] = len(long_cases)
     obs, failing, mism = evaluate(ctx, cases, broken, "main")
     obs_l, failing_l, _ = evaluate(ctx, long_cases, broken, "long", corr=False)
+    run_commands(ctx, broken)
     # long reuse histories (300 < length <= 1400): value model AND trace validator (no reverse complement above 400 symbols in them)
     long_reuse = [c for c in reuse_cases if max(len(op.get("seq", "")) for op in c["ops"]) > 300][:18 if quick else 120]
     obs_r, failing_r, mism_r = evaluate(ctx, long_reuse, broken, "longreuse", corr=True, heap=False)
@@ -982,7 +1440,8 @@ def run(ctx, broken):
     ctx.cov["distinct_nontrivial"] = len(nontriv)
     ctx.cov["rule"] = ("a case is an operation history on real BioSequence objects, every live object observed after every step; non-trivial = at least "
                        "two operations and a sequence of length >= 2; distinct = distinct operation lists. Windows: every (from,to) in [-1,2L+1]x[-2,2L+2], "
-                       "linear and circular; lengths 0..40 for rc; alphabet acgtrymkswbdhvn.-[]")
+                       "linear and circular, with a mismatch on every position; lengths 0..40 for rc; alphabet acgtrymkswbdhvn.-[]; plus the records of the "
+                       "obicomplement runs (coverage.commands)")
     dist = {}
     for c in cases + long_cases:
         dist[c.get("tag", "?")] = dist.get(c.get("tag", "?"), 0) + 1
@@ -990,7 +1449,17 @@ def run(ctx, broken):
     for c in cases + long_cases:
         for op in c["ops"]:
             opd[op["op"]] = opd.get(op["op"], 0) + 1
-    ctx.cov["distribution"] = dict(cases_by_kind=dist, operations=opd)
+    ctd, mmt, wpos = {}, {}, 0
+    for c in cases + long_cases:
+        for op in c["ops"]:
+            if op["op"] == "new":
+                ctd[op.get("via") or "NewBioSequence"] = ctd.get(op.get("via") or "NewBioSequence", 0) + 1
+                if op.get("hasmm"):
+                    mmt[op.get("mmtype") or "map[string]int"] = mmt.get(op.get("mmtype") or "map[string]int", 0) + 1
+        if c.get("tag") == "window" and c["ops"][0].get("hasmm"):
+            wpos += len(c["ops"][0]["mm"])
+    ctx.cov["distribution"] = dict(cases_by_kind=dist, operations=opd, constructors=ctd, pairing_mismatches_stored_as=mmt,
+                                   window_x_mismatch_position_pairs=wpos)
     ctx.cov["exhaustive"] = "all windows (from,to,circular) of the listed short lengths; complement tables: every byte 0..255 / every letter"
     ctx.cov["oracle_failures"] = len(failing) + len(failing_l)
     ctx.cov["model_vs_impl_mismatches"] = len(mism)
@@ -1007,6 +1476,12 @@ def run(ctx, broken):
 
 
 def replay(ctx, rp):
+    if rp.get("kind") == "command":               # the same records through the same command line
+        before = len(ctx.violations)
+        run_commands(ctx, [], only=rp.get("run"), recs=rp["records"])
+        print("replay: obicomplement run %r on %d record(s):" % (rp.get("run"), len(rp["records"])), "property violated" if len(ctx.violations) > before else "property holds",
+              "|", json.dumps(ctx.cov.get("commands")))
+        return
     if rp.get("kind") == "table-obligation":      # re-dump the tables of the current build and re-evaluate the finite obligations
         bad = table_failures(dump_tables(ctx))
         print("replay: complement tables of the current build, symbol %r:" % rp.get("symbol"), [w for w, ch in bad if ch == rp.get("symbol")] or "obligations hold",
